@@ -21,10 +21,11 @@ PROP = {
         {"name": "cl", "crate": "core", "bin": "sv-cl", "machine": "cl",
          "cases": {"quick": 3000, "thorough": 100000}, "min_shard": 500, "nontrivial_min_ops": 5},
         # runtime half of command lanes: the real read task (read_task / LaneSender) under AgentRouteTask
-        {"name": "rf", "crate": "core", "bin": "sv-rf", "machine": "rf",
+        {"name": "rf", "crate": "core", "bin": "sv-rf", "machine": "rf", "reasons": r"(?!command-count-).*",
          "cases": {"quick": 3000, "thorough": 100000}, "min_shard": 500, "nontrivial_min_ops": 5},
         # the same with racing remotes and small lane buffers (order across remotes is tokio's): monitor only
         {"name": "race-rf", "crate": "core", "bin": "sv-rf", "machine": "rf", "modes": ["monitor"],
+         "reasons": r"(?!command-count-).*",
          "gen_args": ["race"], "cases": {"quick": 3000, "thorough": 100000}, "min_shard": 500,
          "nontrivial_min_ops": 5},
     ],
